@@ -3,8 +3,6 @@ package consensus
 import (
 	"context"
 	"fmt"
-	"os"
-	"runtime"
 	"sort"
 	"strings"
 	"testing"
@@ -237,9 +235,9 @@ type c36inst struct {
 	known    map[int]bool           // delivered in any form
 	notar    map[int64]map[int]bool // delivered notarized, per round
 	roundObj map[int64]bool
-	seqSeen  int // finalized sequence already checked
+	seqSeen  int  // finalized sequence already checked
 	rolled   bool // the shipped rollback branch has moved this instance's LFB backwards before
-	lastFin  int // last block handed to UpdateFinalizedBlock (sim index)
+	lastFin  int  // last block handed to UpdateFinalizedBlock (sim index)
 }
 
 func execC36(env *sim.Env, p *sim.Plan) *sim.Result {
@@ -309,10 +307,6 @@ func runC36(tr *sim.Trace, p *sim.Plan) {
 		time.Sleep(10 * time.Second) // let the LFB notification goroutines time out
 		cancel()
 		synctest.Wait()
-		if os.Getenv("VERIF_DEBUG_STACKS") != "" {
-			buf := make([]byte, 1<<20)
-			os.Stderr.Write(buf[:runtime.Stack(buf, true)])
-		}
 	}()
 	arr := newArrivals(tr, nInst)
 
